@@ -779,6 +779,10 @@ def make_svg_table(
     else:
         doc_list = _rawsvg_docs(config, ttfont, color_glyphs)
 
+    # SVG document records must be sorted by start glyph ID; sources can come in any
+    # order when one of them draws a glyph that already exists, e.g. a colored .notdef
+    doc_list = sorted(doc_list, key=lambda doc: doc[1])
+
     svg_table = ttLib.newTable("SVG ")
     svg_table.compressed = compressed
     svg_table.docList = doc_list
